@@ -708,10 +708,12 @@ func (u *UnitGen) checkInvariants(fr *Frame, li *loopInfo, st *State, kind strin
 		return
 	}
 	env := u.loopEnv(fr, li, st)
-	for i, c := range li.spec.Invs {
+	unl := 0
+	for _, c := range li.spec.Invs {
 		name := c.Label
 		if name == "" {
-			name = fmt.Sprint(i + 1)
+			unl++
+			name = fmt.Sprint(unl)
 		}
 		t := env.evalBool(c.E)
 		u.oblige(st, kind, fmt.Sprintf("loop%d/%s#%s", li.ordinal, kind, name), c.Text, t)
@@ -788,7 +790,7 @@ func (u *UnitGen) anchoredAsserts(fr *Frame, st *State, file string, line int) {
 		env.loop = innermostLoop(fr)
 		name := a.Label
 		if name == "" {
-			name = fmt.Sprint(i + 1)
+			name = fmt.Sprint(unlabelledBefore(u.contract.Asserts, i) + 1)
 		}
 		u.assertCtr[name]++
 		full := fmt.Sprintf("at:%s#%d", name, u.assertCtr[name])
@@ -848,4 +850,15 @@ func innermostLoop(fr *Frame) *loopInfo {
 		}
 	}
 	return best
+}
+
+// unlabelledBefore: how many of the asserts before index i carry no label (unlabelled clauses are numbered among themselves).
+func unlabelledBefore(as []AssertAt, i int) int {
+	n := 0
+	for j := 0; j < i && j < len(as); j++ {
+		if as[j].Label == "" {
+			n++
+		}
+	}
+	return n
 }
